@@ -120,12 +120,34 @@ def build(doc, user, tmpdir):
     return conc, desc, nstages
 
 
-def impl_resolve(conc, comp, platform, prim):
+STD_FLAGS = {"raw": False, "incl": True, "prim": False, "inject": True}
+ALL_FLAGS = [{"raw": r, "incl": i, "prim": p, "inject": j}
+             for r in (False, True) for i in (False, True) for p in (False, True) for j in (False, True)]
+
+
+def flag_kwargs(flags):
+    return dict(raw=flags["raw"], include_default=flags["incl"], is_primitive=flags["prim"],
+                inject_missing_fields=flags["inject"])
+
+
+def flag_tag(flags):
+    return "flags:" + "".join(k[0] if flags[k] else "-" for k in ("raw", "incl", "prim", "inject"))
+
+
+def impl_resolve(conc, comp, platform, prim, flags=None, keep=None):
+    """one get_component_configuration call; `flags` selects raw / include_default / is_primitive /
+    inject_missing_fields (default: the observed call of the property); `keep` receives the returned object"""
     try:
-        kw = dict(raw=False, include_default=True, platform=platform)
-        if prim:
-            kw["is_primitive"] = True
-        return {"ok": to_json(conc.get_component_configuration(tuple(comp), **kw))}
+        if flags is not None:
+            kw = dict(platform=platform, **flag_kwargs(flags))
+        else:
+            kw = dict(raw=False, include_default=True, platform=platform)
+            if prim:
+                kw["is_primitive"] = True
+        res = conc.get_component_configuration(tuple(comp), **kw)
+        if keep is not None:
+            keep.append(res)
+        return {"ok": to_json(res)}
     except BaseException as exc:  # RecursionError is not an Exception subclass issue, but be broad
         if isinstance(exc, (KeyboardInterrupt, SystemExit)):
             raise
@@ -137,6 +159,151 @@ def user_json(user):
         return None
     return {"global": to_json(user.get("global", {})),
             "stages": {str(i): to_json(v) for i, v in user.get("stages", {}).items()}}
+
+
+# ----------------------------------------------------------------------------------------
+# read-only operations of FlowIRConcrete (shared with harness/c08.py)
+# ----------------------------------------------------------------------------------------
+
+READ_KINDS = ["instance", "instance", "instance", "replicate", "raw", "get_component", "get_components", "blueprint",
+              "blueprint", "variables", "component_variables", "variable_references", "copy", "identifiers"]
+
+
+def scramble(tree):
+    """in-place mutation of everything reachable in a returned object (the caller's copy is the caller's)"""
+    if isinstance(tree, dict):
+        for k in list(tree.keys()):
+            v = tree[k]
+            if isinstance(v, (dict, list)):
+                scramble(v)
+            else:
+                tree[k] = "MUTATED-BY-CALLER"
+        tree["injected-by-caller"] = {"x": 1}
+    elif isinstance(tree, list):
+        for v in tree:
+            scramble(v)
+        tree.append("MUTATED-BY-CALLER")
+
+
+def gen_read(rng, comps, platforms, stages=(0, 1)):
+    """one accessor call that hands out copies (answer not modelled); comps = [(stage, name)]"""
+    what = rng.choice(READ_KINDS)
+    op = {"op": "read", "what": what}
+    cid = rng.choice(comps) if comps else (0, "ghost")
+    if what == "instance":
+        op.update(platform=rng.choice(platforms), fill_in_all=rng.random() < 0.3, prim=rng.random() < 0.5,
+                  inject=rng.random() < 0.4)
+    elif what == "replicate":
+        op.update(platform=rng.choice(platforms))
+    elif what in ("get_component", "variable_references"):
+        op.update(stage=cid[0], name=cid[1])
+    elif what == "component_variables":
+        op.update(stage=cid[0], name=cid[1], platform=rng.choice(platforms), include=[rng.random() < 0.6 for _ in range(5)])
+    elif what == "blueprint":
+        op.update(which=rng.choice(["default-global", "default-stage", "platform-global", "platform-stage"]),
+                  stage=rng.choice(list(stages)), platform=rng.choice(platforms))
+    elif what == "variables":
+        op.update(which=rng.choice(["default-global", "default-stage", "platform-global", "platform-stage",
+                                    "platform", "global", "stage", "workflow"]),
+                  stage=rng.choice(list(stages)), platform=rng.choice(platforms))
+    return op
+
+
+op_raised = []      # accessor calls that raised (reported as tags: they must stay the exception)
+
+
+def apply_read(conc, op):
+    """runs the accessor on the real object, then scribbles all over what it returned; errors are part of
+    the game (e.g. instance() of a description with an unresolvable reference) and are not compared"""
+    what = op["what"]
+    try:
+        cid = (op.get("stage"), op.get("name"))
+        if what == "instance":
+            res = conc.instance(platform=op["platform"], ignore_errors=True, fill_in_all=op["fill_in_all"],
+                                is_primitive=op["prim"], inject_missing_fields=op["inject"])
+        elif what == "replicate":
+            res = conc.replicate(platform=op["platform"], ignore_errors=True)
+        elif what == "raw":
+            res = conc.raw()
+        elif what == "get_component":
+            res = conc.get_component(cid)
+        elif what == "get_components":
+            res = conc.get_components()
+        elif what == "variable_references":
+            res = conc.get_component_variable_references(cid)
+        elif what == "component_variables":
+            inc = op["include"]
+            res = conc.get_component_variables(cid, platform=op["platform"], include_default_global=inc[0],
+                                               include_default_stage=inc[1], include_platform_global=inc[2],
+                                               include_platform_stage=inc[3], include_platform_override=inc[4])
+        elif what == "blueprint":
+            w = op["which"]
+            res = (conc.get_default_global_blueprint() if w == "default-global" else
+                   conc.get_default_stage_blueprint(op["stage"]) if w == "default-stage" else
+                   conc.get_platform_blueprint(op["platform"]) if w == "platform-global" else
+                   conc.get_platform_stage_blueprint(op["stage"], op["platform"]))
+        elif what == "variables":
+            w = op["which"]
+            res = (conc.get_default_global_variables() if w == "default-global" else
+                   conc.get_default_stage_variables(op["stage"]) if w == "default-stage" else
+                   conc.get_platform_global_variables(op["platform"]) if w == "platform-global" else
+                   conc.get_platform_stage_variables(op["stage"], op["platform"]) if w == "platform-stage" else
+                   conc.get_platform_variables(op["platform"]) if w == "platform" else
+                   conc.get_global_variables() if w == "global" else
+                   conc.get_stage_variables(op["stage"]) if w == "stage" else
+                   conc.get_workflow_variables())
+        elif what == "copy":
+            other = conc.copy()
+            other.set_global_variable("g", "SET-ON-THE-COPY")
+            for c in other.get_components(return_copy=False):
+                scramble(c)
+            res = None
+        elif what == "identifiers":
+            conc.get_component_identifiers(recompute=True)
+            res = None
+        else:
+            raise ValueError(what)
+        scramble(res)
+    except BaseException as exc:
+        if isinstance(exc, (KeyboardInterrupt, SystemExit)):
+            raise
+        op_raised.append(what + ":" + type(exc).__name__)
+    return {"ok": None}
+
+
+def prune_empty(v):
+    """{} and a missing key mean the same in the blueprint / variables sections (the accessors create the
+    empty scopes they look at)"""
+    if isinstance(v, dict):
+        out = {k: prune_empty(x) for k, x in v.items()}
+        return {k: x for k, x in out.items() if x != {}}
+    return v
+
+
+def desc_norm(conc):
+    d = desc_of(conc)
+    return {"platforms": sorted(d["platforms"]), "blueprint": prune_empty(d["blueprint"]),
+            "variables": prune_empty(d["variables"]),
+            "components": sorted(d["components"], key=lambda c: (c["stage"], c["name"]))}
+
+
+def first_difference(a, b, path=()):
+    """route of the first difference of two JSON trees (for failure details)"""
+    if isinstance(a, dict) and isinstance(b, dict):
+        for k in sorted(set(a) | set(b), key=str):
+            if k not in a or k not in b:
+                return {"route": list(path + (k,)), "before": a.get(k, "<absent>"), "after": b.get(k, "<absent>")}
+            d = first_difference(a[k], b[k], path + (k,))
+            if d is not None:
+                return d
+        return None
+    if isinstance(a, list) and isinstance(b, list) and len(a) == len(b):
+        for i, (x, y) in enumerate(zip(a, b)):
+            d = first_difference(x, y, path + (i,))
+            if d is not None:
+                return d
+        return None
+    return None if a == b else {"route": list(path), "before": a, "after": b}
 
 
 # ----------------------------------------------------------------------------------------
@@ -560,13 +727,14 @@ def run_cases(ctx, cases, tmpdir, table):
             reqs.append(None)
             ctx.tag("build-failed:" + type(exc).__name__)
             continue
-        out = impl_resolve(conc, comp, case["platform"], case.get("prim", False))
-        # the second query must give the same answer (cache) and platform isolation: asking for the other
-        # platform first must not change anything
+        out = impl_resolve(conc, comp, case["platform"], case.get("prim", False), case.get("flags"))
         impl.append(out)
-        reqs.append({"op": "resolve", "desc": desc, "user": user_json(user), "nstages": nstages,
-                     "platform": case["platform"], "stage": comp[0], "name": comp[1],
-                     "prim": bool(case.get("prim", False)), "fuel": FUEL})
+        req = {"op": "resolve", "desc": desc, "user": user_json(user), "nstages": nstages,
+               "platform": case["platform"], "stage": comp[0], "name": comp[1],
+               "prim": bool(case.get("prim", False)), "fuel": FUEL}
+        if case.get("flags") is not None:
+            req["flags"] = case["flags"]
+        reqs.append(req)
     live = [r for r in reqs if r is not None]
     mouts = ctx.model(live) if live else []
     mi = 0
@@ -577,8 +745,11 @@ def run_cases(ctx, cases, tmpdir, table):
         mi += 1
         slim = {k: v for k, v in case.items()}
         kind = case["kind"]
-        tags = ["kind:" + kind, "platform:" + case["platform"],
+        flags = case.get("flags")
+        tags = ["kind:" + kind + ("+flags" if flags else ""), "platform:" + case["platform"],
                 "impl:" + ("ok" if "ok" in out else out["error"])]
+        if flags:
+            tags.append(flag_tag(flags))
         nontrivial = True
         if kind in ("option-mask", "variable-mask"):
             nontrivial = len(case["mask"]) >= 2
@@ -589,10 +760,13 @@ def run_cases(ctx, cases, tmpdir, table):
             tags.append("structural:" + case["what"])
         ctx.case(slim, nontrivial=nontrivial, tags=tags)
         # ---- oracles --------------------------------------------------------------------
-        oracle_common(ctx, slim, out)
-        if "ok" in out:
+        if flags is None or not flags["raw"]:
+            oracle_common(ctx, slim, out)
+        if "ok" in out and (flags is None or not (flags["raw"] or flags["prim"])):
             check_typed_tree(ctx, slim, out["ok"], table)
         if kind == "option-mask":
+            # the layering order holds for every variant of the query (raw / without the default scopes /
+            # primitive / without the built-in defaults): the values are already of the declared type
             exp = case["expect"]
             if "ok" not in out:
                 ctx.fail("resolution-of-well-formed-layers-fails", slim, out)
@@ -604,6 +778,8 @@ def run_cases(ctx, cases, tmpdir, table):
                                  {"expected": exp["expected"][1], "got": got})
                 else:
                     dflt = get_route(to_json(_F().FlowIR.default_component_structure()), exp["route"])
+                    if flags is not None and not flags["inject"]:
+                        dflt = ("absent",)
                     nulls_visible = any(visible(t, case["platform"]) for t in case["nulls"] if t in case["mask"])
                     if dflt[0] == "value":
                         # typed defaults are converted (20 -> 20.0): compare only untouched kinds
@@ -611,6 +787,8 @@ def run_cases(ctx, cases, tmpdir, table):
                             ctx.fail("default-lost", slim, {"got": got})
                     elif got[0] == "value" and not (got[1] is None and nulls_visible):
                         ctx.fail("option-appears-from-invisible-layer", slim, {"got": got})
+        elif flags is not None:
+            pass    # the remaining kind-specific expectations are stated for the observed call only
         elif kind == "variable-mask":
             exp = case["expect"]["expected"]
             if exp[0] == "undefined":
@@ -661,7 +839,21 @@ def run_cases(ctx, cases, tmpdir, table):
                 continue
             if "error" in out and out["error"].startswith("other:"):
                 ctx.tag("impl:" + out["error"])
-            ctx.compare("get_component_configuration == Tree.resolve", slim, mres, out)
+            if flags is not None and not flags["incl"]:
+                # without the default scopes several references are undefined at once; which one is reported
+                # first depends on dictionary order: compare the class of the error only
+                mres, out = coarse_error(mres), coarse_error(out)
+            ctx.compare("get_component_configuration == Tree.resolve" + ("F (keyword variants)" if flags else ""),
+                        slim, mres, out)
+
+
+RESOLUTION_ERRORS = {"unknown-variable", "invalid-variable", "incomplete-variable", "invalid-type", "recursion"}
+
+
+def coarse_error(a):
+    if isinstance(a, dict) and a.get("error") in RESOLUTION_ERRORS:
+        return {"error": "resolution-error"}
+    return a
 
 
 def locate_top(tree, where):
@@ -695,6 +887,306 @@ def expected_chain_string(case):
         res = spec_substitute(top, {k: v for k, v in variables.items() if k != "replica"})
         return None if res is None else res.replace("\0", "%(replica)s")
     return spec_substitute(case["top"], variables)
+
+
+# sequences of read-only operations on ONE object ----------------------------------------------------
+
+SEQ_ROUTES = [r for r in OPTION_POOL if r[0] != ("command", "arguments")] + [
+    (("resourceManager", "config", "walltime"), lambda t, k: 10.5 + k),
+    (("resourceRequest", "numberThreads"), lambda t, k: 40 + k),
+    (("resourceRequest", "memory"), lambda t, k: 1000 + k),
+    (("custom", "other"), lambda t, k: "o" + t),
+    (("extra", "leaf"), lambda t, k: "e" + t),
+]
+SEQ_PLATFORMS = ["default", "p"]
+
+
+def gen_sequence(rng):
+    """a description with several components per stage whose layers define a random subset of some option
+    routes (stage-scoped blueprints included, sections the global blueprint lacks included) and of one
+    variable, plus a sequence of read-only operations with points at which EVERY component is resolved"""
+    doc = base_doc()
+    doc["components"].append({"name": "s0", "stage": 0, "command": {}, "variables": {}, "override": {}})
+    if rng.random() < 0.6:
+        doc["components"].append({"name": "s1", "stage": 1, "command": {}, "variables": {}, "override": {}})
+    if rng.random() < 0.4:
+        doc["components"].append({"name": "t0", "stage": 0, "command": {}, "variables": {}, "override": {}})
+    routes = rng.sample(range(len(SEQ_ROUTES)), rng.randint(3, 6))
+    p_global = rng.choice([0.15, 0.35])
+    k = 0
+    for ri in routes:
+        route, gen = SEQ_ROUTES[ri]
+        for tag in ("DG", "DS", "PG", "PS", "QG", "QS"):
+            for stage in ((0, 1) if tag[1] == "S" else (0,)):
+                k += 1
+                if rng.random() < (p_global if tag[1] == "G" else 0.5):
+                    value = None if rng.random() < 0.08 else gen("%s%d" % (tag, stage), k)
+                    set_route(option_target(doc, tag, stage, 0), route, value)
+        for ci, comp in enumerate(doc["components"]):
+            for tag in ("C", "O", "QO"):
+                k += 1
+                if rng.random() < (0.45 if tag == "C" else 0.25):
+                    value = None if rng.random() < 0.08 else gen("%s-%s" % (tag, comp["name"]), k)
+                    set_route(option_target(doc, tag, comp["stage"], ci), route, value)
+    # one variable over the layers, referenced by every component
+    doc["variables"]["default"]["global"]["v"] = "vDG"
+    for tag in ("DS", "PG", "PS", "QG", "QS"):
+        for stage in ((0, 1) if tag[1] == "S" else (0,)):
+            if rng.random() < 0.4:
+                variable_target(doc, None, tag, stage, 0)["v"] = "v%s%d" % (tag, stage)
+    for ci, comp in enumerate(doc["components"]):
+        comp["command"]["arguments"] = "<%(v)s>"
+        for tag in ("C", "O", "QO"):
+            if rng.random() < 0.3:
+                variable_target(doc, None, tag, comp["stage"], ci)["v"] = "v%s-%s" % (tag, comp["name"])
+    comps = [(c["stage"], c["name"]) for c in doc["components"]]
+    ops = []
+    if rng.random() < 0.25:
+        ops.append({"op": "resolveAll"})
+    for _ in range(rng.randint(2, 8)):
+        r = rng.random()
+        cid = rng.choice(comps)
+        if r < 0.5:
+            ops.append({"op": "queryF", "stage": cid[0], "name": cid[1], "platform": rng.choice(SEQ_PLATFORMS),
+                        "flags": rng.choice(ALL_FLAGS)})
+        elif r < 0.86:
+            ops.append(gen_read(rng, comps, SEQ_PLATFORMS))
+        elif r < 0.94:
+            ops.append({"op": "touchComp", "stage": cid[0], "name": cid[1]})
+        else:
+            ops.append({"op": "touchVars", "platform": rng.choice(SEQ_PLATFORMS), "stage": rng.choice([None, 0, 1])})
+        if rng.random() < 0.25:
+            ops.append({"op": "resolveAll"})
+    if ops[-1]["op"] != "resolveAll":
+        ops.append({"op": "resolveAll"})
+    return {"kind": "sequence", "doc": doc, "user": None, "routes": routes, "ops": ops}
+
+
+def apply_touch(conc, op):
+    """the reference getters, without writing through the reference"""
+    try:
+        if op["op"] == "touchComp":
+            conc.get_component((op["stage"], op["name"]), return_copy=False)
+        elif op.get("stage") is None:
+            conc.get_platform_global_variables(op["platform"], return_copy=False)
+        else:
+            conc.get_platform_stage_variables(op["stage"], op["platform"], return_copy=False)
+        return {"ok": None}
+    except BaseException as exc:
+        if isinstance(exc, (KeyboardInterrupt, SystemExit)):
+            raise
+        return err_kind(exc)
+
+
+def expected_layered(doc, comp, platform, route):
+    """the property, restated on the ORIGINAL document: value of the highest-priority layer that defines the
+    route as something other than None (default global < default stage < platform global < platform stage <
+    component < component override for the platform); ("none-visible",) when nothing but None is said"""
+    stage = comp["stage"]
+    order = [doc["blueprint"]["default"]["global"], doc["blueprint"]["default"]["stages"].get(stage, {})]
+    if platform != "default":
+        order += [doc["blueprint"][platform]["global"], doc["blueprint"][platform]["stages"].get(stage, {})]
+    order += [comp, (comp.get("override") or {}).get(platform) or {}]
+    exp = ("default",)
+    for layer in order:
+        got = get_route(layer, route)
+        if got[0] == "value":
+            if got[1] is not None:
+                exp = got
+            elif exp == ("default",):
+                exp = ("none-visible",)
+    return exp
+
+
+def expected_variable(doc, comp, platform, name, own_only=False):
+    stage = comp["stage"]
+    order = []
+    if not own_only:
+        order = [doc["variables"]["default"]["global"], doc["variables"]["default"]["stages"].get(stage, {})]
+        if platform != "default":
+            order += [doc["variables"][platform]["global"], doc["variables"][platform]["stages"].get(stage, {})]
+    order += [comp.get("variables", {}), ((comp.get("override") or {}).get(platform) or {}).get("variables", {})]
+    variables = {}
+    for layer in order:
+        variables.update(layer)
+    return variables.get(name)
+
+
+def spec_check_resolution(case, comp, platform, out, builtin, flags=None):
+    """model-independent layering oracle on one answer of get_component_configuration; yields (slug, detail).
+    The order of the layers is the same for every keyword variant: without inject_missing_fields the built-in
+    defaults are not a layer, without include_default only the component's own variables (and its override's)
+    are visible, raw answers are not interpolated."""
+    flags = flags or STD_FLAGS
+    doc = case["doc"]
+    who = {"component": [comp["stage"], comp["name"]], "platform": platform}
+    if flags != STD_FLAGS:
+        who["flags"] = flags
+    v = expected_variable(doc, comp, platform, "v", own_only=not flags["incl"])
+    if "ok" not in out:
+        if not flags["raw"] and v is None and out.get("error") == "unknown-variable":
+            return          # `v` is not defined in the scopes this variant looks at: reported, as it must be
+        yield "resolution-of-well-formed-layers-fails", dict(who, answer=out)
+        return
+    if not flags["raw"] and v is None:
+        yield "undefined-variable-not-reported", dict(who, arguments=out["ok"].get("command", {}).get("arguments"))
+        return
+    for ri in case["routes"]:
+        route = list(SEQ_ROUTES[ri][0])
+        exp = expected_layered(doc, comp, platform, route)
+        got = get_route(out["ok"], route)
+        if exp[0] == "value":
+            if got != ("value", to_json(exp[1])):
+                yield "option-not-from-highest-priority-layer", dict(who, route=route, expected=to_json(exp[1]), got=got)
+        else:
+            dflt = get_route(builtin, route) if flags["inject"] else ("absent",)
+            if dflt[0] == "value":
+                if got[0] != "value":
+                    yield "default-lost", dict(who, route=route, got=got)
+                elif dflt[1] is None or isinstance(dflt[1], str):
+                    # untouched kinds of default (typed numeric defaults are converted, e.g. 60 -> 60.0)
+                    if got[1] != dflt[1]:
+                        yield "option-not-from-highest-priority-layer", dict(who, route=route, expected=dflt[1], got=got)
+            elif got[0] == "value" and not (got[1] is None and exp[0] == "none-visible"):
+                yield "option-appears-from-invisible-layer", dict(who, route=route, got=got)
+    if out["ok"].get("variables", {}).get("v") != v:
+        yield "variable-not-from-highest-priority-layer", dict(who, expected=v, got=out["ok"].get("variables", {}).get("v"))
+    want = "<%(v)s>" if flags["raw"] else "<%s>" % v
+    if out["ok"].get("command", {}).get("arguments") != want:
+        yield "substituted-value-not-from-highest-priority-layer", dict(
+            who, expected=want, got=out["ok"].get("command", {}).get("arguments"))
+
+
+def run_sequence(case, tmpdir):
+    """drives one sequence on ONE FlowIRConcrete; returns (desc, nstages, [(query, answer)], failures).
+    query = {"stage","name","platform","flags"} for every get_component_configuration made (queryF ops and
+    the resolve-all points); failures = [(slug, detail)] of the model-independent oracles"""
+    F = _F()
+    doc = case["doc"]
+    conc, desc, nstages = build(doc, case.get("user"), tmpdir)
+    builtin = to_json(F.FlowIR.inject_default_values_to_component({}))
+    before = desc_norm(conc)
+    by_id = {(c["stage"], c["name"]): c for c in doc["components"]}
+    queries, failures = [], []
+    done = []
+    for idx, op in enumerate(case["ops"]):
+        k = op["op"]
+        if k == "resolveAll":
+            for cid in sorted(by_id):
+                for P in SEQ_PLATFORMS:
+                    keep = []
+                    out = impl_resolve(conc, cid, P, False, STD_FLAGS, keep)
+                    queries.append(({"stage": cid[0], "name": cid[1], "platform": P, "flags": STD_FLAGS}, out))
+                    for slug, detail in spec_check_resolution(case, by_id[cid], P, out, builtin):
+                        failures.append((slug, dict(detail, after_operations=list(done))))
+                    # the same question to a fresh object that was never asked anything else
+                    fresh = F.FlowIRConcrete(copy.deepcopy(doc), "default", {})
+                    ref = impl_resolve(fresh, cid, P, False, STD_FLAGS)
+                    if json.dumps(ref, sort_keys=True) != json.dumps(out, sort_keys=True):
+                        failures.append(("resolution-depends-on-earlier-read-only-operations",
+                                         {"component": list(cid), "platform": P, "after_operations": list(done),
+                                          "difference": first_difference(ref, out)}))
+                    for r in keep:
+                        scramble(r)
+        elif k == "queryF":
+            keep = []
+            out = impl_resolve(conc, (op["stage"], op["name"]), op["platform"], op["flags"]["prim"], op["flags"], keep)
+            queries.append(({"stage": op["stage"], "name": op["name"], "platform": op["platform"],
+                             "flags": op["flags"]}, out))
+            for slug, detail in spec_check_resolution(case, by_id[(op["stage"], op["name"])], op["platform"], out,
+                                                      builtin, op["flags"]):
+                failures.append((slug, dict(detail, after_operations=list(done))))
+            for r in keep:
+                scramble(r)
+        elif k == "read":
+            apply_read(conc, op)
+        else:
+            apply_touch(conc, op)
+        if k != "resolveAll":
+            done.append(op)
+        after = desc_norm(conc)
+        if after != before:
+            failures.append(("read-only-operation-changed-the-description",
+                             {"operation": op, "index": idx, "difference": first_difference(before, after)}))
+            before = after
+    return desc, nstages, queries, failures
+
+
+def sequence_fails(case):
+    tmpdir = tempfile.mkdtemp(prefix="c04-")
+    try:
+        return bool(run_sequence(case, tmpdir)[3])
+    except Exception:
+        return False
+    finally:
+        shutil.rmtree(tmpdir, ignore_errors=True)
+
+
+def shrink_sequence(what, case):
+    if case.get("kind") != "sequence":
+        return None
+    from harness.common import shrink_list
+    tail = [{"op": "resolveAll"}]
+    ops = shrink_list([o for o in case["ops"]], lambda ops: sequence_fails(dict(case, ops=list(ops) + tail)),
+                      max_steps=80)
+    small = dict(case, ops=list(ops) + tail)
+    comps = shrink_list(small["doc"]["components"],
+                        lambda cs: sequence_fails(dict(small, doc=dict(small["doc"], components=list(cs)))),
+                        max_steps=20)
+    small = dict(small, doc=dict(small["doc"], components=list(comps)))
+    routes = shrink_list(small["routes"], lambda rs: sequence_fails(dict(small, routes=list(rs))), max_steps=20)
+    return dict(small, routes=list(routes))
+
+
+def run_sequences(ctx, cases, tmpdir, table):
+    runs, reqs = [], []
+    for case in cases:
+        desc, nstages, queries, failures = run_sequence(case, tmpdir)
+        runs.append((queries, failures, len(reqs)))
+        for q, _ in queries:
+            reqs.append({"op": "resolve", "desc": desc, "user": user_json(case.get("user")), "nstages": nstages,
+                         "platform": q["platform"], "stage": q["stage"], "name": q["name"], "prim": q["flags"]["prim"],
+                         "flags": q["flags"], "fuel": FUEL})
+    mouts = ctx.model(reqs) if reqs else []
+    for r in op_raised:
+        ctx.tag("seq-read-raised:" + r)
+    del op_raised[:]
+    for case, (queries, failures, base) in zip(cases, runs):
+        ro = [o for o in case["ops"] if o["op"] != "resolveAll"]
+        tags = ["kind:sequence"] + ["seq-op:" + (o["op"] if o["op"] != "read" else "read:" + o["what"]) for o in ro]
+        tags += [flag_tag(o["flags"]) for o in ro if o["op"] == "queryF"]
+        tags += ["seq-answer:" + ("ok" if "ok" in a else a["error"]) for _, a in queries]
+        ctx.case(case, nontrivial=len(ro) >= 2, tags=tags)
+        for slug, detail in failures:
+            ctx.fail(slug, case, detail)
+        for q, out in queries:
+            if q["flags"] == STD_FLAGS:
+                oracle_common(ctx, case, out)
+                if "ok" in out:
+                    check_typed_tree(ctx, case, out["ok"], table)
+        if mouts is None:
+            continue
+        first = None
+        for k, (q, out) in enumerate(queries):
+            mres = mouts[base + k]["result"]
+            if mres.get("error") == "unsupported":
+                ctx.tag("model:unsupported")
+                continue
+            if canon_eq(mres, out):
+                continue
+            first = (k, q, mres, out)
+            break
+        rel = "sequence of read-only operations on one FlowIRConcrete == Tree.resolveF of the original description"
+        if first is None:
+            ctx.compare(rel, case, {"agree": True}, {"agree": True})
+        else:
+            k, q, mres, out = first
+            ctx.compare(rel, case, {"agree": True, "index": k, "query": q, "answer": mres},
+                        {"agree": False, "index": k, "query": q, "answer": out})
+
+
+def canon_eq(a, b):
+    return json.dumps(a, sort_keys=True) == json.dumps(b, sort_keys=True)
 
 
 # unit-level relations -------------------------------------------------------------------
@@ -768,11 +1260,13 @@ def unit_interp(ctx, rng, n):
 
 
 CORPUS = []
+SEQ_CORPUS = []
 
 
 def run(ctx):
     _quiet()
     ctx.classifiers = CLASSIFIERS
+    ctx.shrinker = shrink_sequence
     from harness import gen_c04
     table = gen_c04.py_table()
     rng = ctx.rng
@@ -841,7 +1335,18 @@ def run(ctx):
         # (e) structural
         for _ in range(60 if quick else 600):
             cases.append(gen_structural(rng))
+        # (g) the same cases asked with the other keyword variants of get_component_configuration
+        nonstd = [f for f in ALL_FLAGS if f != STD_FLAGS]
+        for case in list(cases):
+            if rng.random() < 0.5:
+                twin = copy.deepcopy(case)
+                twin["flags"] = rng.choice(nonstd)
+                twin["prim"] = twin["flags"]["prim"]
+                cases.append(twin)
         run_cases(ctx, cases, tmpdir, table)
+        # (h) sequences of read-only operations on one object, every component resolved in between
+        seqs = [gen_sequence(rng) for _ in range(150 if quick else 1500)]
+        run_sequences(ctx, SEQ_CORPUS + seqs, tmpdir, table)
         # (f) unit relations
         unit_override(ctx, rng, 400 if quick else 6000)
         unit_interp(ctx, rng, 600 if quick else 10000)
@@ -899,6 +1404,8 @@ def replay(ctx, doc):
             ctx.case(case, nontrivial=True, tags=["kind:interp"])
             if mo is not None and mo[0].get("error") != "unsupported":
                 ctx.compare("FlowIR.interpolate == Tree.interp", case, mo[0], out)
+        elif kind == "sequence":
+            run_sequences(ctx, [fix_int_keys(case)], tmpdir, table)
         else:
             case = fix_int_keys(case)
             run_cases(ctx, [case], tmpdir, table)
